@@ -381,10 +381,11 @@ static const mc_sys SYS = { CLS, 0, op_name, fresh, enabled, apply, probe, canon
  * {complete, 1 byte, half, EINTR}; deviations bounded (E3).  fgets() paths use fmemopen and pipes. */
 static int g_hook_fd = -1;
 ssize_t __real_read(int fd, void *buf, size_t n);
-static int g_eio_at = -1, g_eio_seen;
+static int g_eio_at = -1, g_eio_seen, g_storm, g_storm_c;
 ssize_t __wrap_read(int fd, void *buf, size_t n)
 {
     if (fd == g_hook_fd && g_eio_at >= 0 && g_eio_seen++ >= g_eio_at) { errno = EIO; return -1; }          /* from this call on the descriptor fails hard */
+    if (fd == g_hook_fd && g_storm && n > 0) { if (g_storm_c < g_storm) { g_storm_c++; errno = EINTR; return -1; } g_storm_c = 0; if (n > 1500) n = 1500; }      /* interrupt storm: g_storm EINTRs before every real read of <= 1500 bytes */
     if (fd == g_hook_fd && mc_e3_active() && n > 0) {
         int c = mc_choose(4);
         if (c == 1) n = 1;
@@ -519,13 +520,17 @@ static void check_text(T o, const char *pay, int explen, const char *site, const
     else if (memcmp(o->s, pay, (size_t) explen)) { int d = 0; while (d < explen && o->s[d] == pay[d]) d++; FAIL(site, "model:text", shape, "%s: text differs from the input at offset %d of %d", what, d, explen); }
 }
 static const int H_FIRST[] = { 33000, 70000 }, H_SECOND[] = { 4097, 9000, 20000 };
+static const int STORMS[] = { 30, 101, 300 };
 static void sh_desc(uint64_t idx, void *ctx, char *b, size_t n)
 {
+    if (idx >= 24) { snprintf(b, n, CLS " new_from_fd(%s) on 10000 bytes where every read() is preceded by %d EINTR failures and moves at most 1500 bytes", (idx - 24) % 2 ? "unix socket" : "pipe", STORMS[(idx - 24) / 2]); return; }
     (void) ctx; int kind = (int) (idx % 2), f = H_FIRST[(idx / 2) % 2], sc = H_SECOND[(idx / 4) % 3], viafp = (int) (idx / 12);
     snprintf(b, n, CLS " %s(%s) on %d bytes, delete, then %s on %d bytes already queued", viafp ? "new_from_fp" : "new_from_fd", kind ? "unix socket" : "pipe", f, viafp ? "new_from_fp" : "new_from_fd", sc);
 }
+static void storm_case(uint64_t idx);
 static void sh_case(uint64_t idx, void *ctx)
 {
+    if (idx >= 24) { storm_case(idx - 24); return; }
     (void) ctx; int kind = (int) (idx % 2), lens[2] = { H_FIRST[(idx / 2) % 2], H_SECOND[(idx / 4) % 3] }, viafp = (int) (idx / 12);
     const char *site = viafp ? CLS "_new_from_fp" : CLS "_new_from_fd";
     mc_set_shape("after a large stream");
@@ -541,6 +546,21 @@ static void sh_case(uint64_t idx, void *ctx)
     }
     mc_nontrivial();
     mc_outcome(idx);
+}
+static void storm_case(uint64_t i)
+{
+    int kind = (int) (i % 2); const char *site = CLS "_new_from_fd";
+    mc_set_shape("interrupt storm");
+    char *pay = malloc(10001); fill_payload(pay, 10000, -1);
+    int fds[2] = { -1, -1 };
+    if (!queue_stream(kind, pay, 10000, fds)) { free(pay); return; }
+    g_hook_fd = fds[0]; g_storm = STORMS[i / 2]; g_storm_c = 0;
+    T o = F(new_from_fd)(fds[0]);
+    g_hook_fd = -1; g_storm = 0;
+    check_text(o, pay, 10000, site, "interrupt storm", "stream under an interrupt storm");
+    if (o) F(del)(o);
+    close(fds[0]); free(pay);
+    mc_nontrivial(); mc_outcome(100 + i);
 }
 /* (b) hard errors */
 enum { HE_EIO0, HE_EIO1, HE_EIO2, HE_EIO3, HE_DIR, HE_WRONLY, NHE };
@@ -630,7 +650,7 @@ int main(int argc, char **argv)
     g_dev = (int) mc_arg_int("dev", 2);
     if (!mc_arg("only", NULL) || !strcmp(mc_arg("only", ""), "ctor"))
         mc_e2_level(CLS "_stream_ctor", g_k * 10 + g_dev, (uint64_t) NSRC * 6 * NLENS, sc_case, sc_desc, NULL);
-    if (!mc_arg("only", NULL)) { mc_e2_level(CLS "_stream_history", 1, 24, sh_case, sh_desc, NULL); mc_e2_level(CLS "_fd_hard_error", 1, NHE, he_case, he_desc, NULL); }
+    if (!mc_arg("only", NULL)) { mc_e2_level(CLS "_stream_history", 1, 30, sh_case, sh_desc, NULL); mc_e2_level(CLS "_fd_hard_error", 1, NHE, he_case, he_desc, NULL); }
     if (!mc_arg("only", NULL)) { int maxn = (int) mc_arg_int("spmax", mc_thorough() ? 9000 : 700); mc_e2_level(CLS "_sprintf_len", maxn, (uint64_t) (maxn + 1) * 3, sp_case, sp_desc, NULL); }
     return mc_finish();
 }
